@@ -14,8 +14,8 @@ theorem IsXgcd.bezout {a b : Nat} {res : Nat × Int × Int} (h : IsXgcd a b res)
 
 /-- `gcd_ext_word` / `gcd_ext_dword`: gcd, the coefficient `a` of the long operand and the recovered
     coefficient `b = ±|b|` of the short one satisfy Bezout's identity -/
-theorem gcdExtSmall_spec (buffer rhs : Nat) (hrpos : 0 < rhs) :
-    ∃ g a bMag bNeg, gcdExtSmall buffer rhs = .ok (g, a, bMag, bNeg) ∧
+theorem gcdExtSmall_spec (W : Nat) (buffer rhs : Nat) (hrpos : 0 < rhs) :
+    ∃ g a bMag bNeg, gcdExtSmall W buffer rhs = .ok (g, a, bMag, bNeg) ∧
       IsBezout buffer rhs (g, a, if bNeg then -(bMag : Int) else (bMag : Int)) := by
   unfold gcdExtSmall
   simp only []
@@ -27,7 +27,12 @@ theorem gcdExtSmall_spec (buffer rhs : Nat) (hrpos : 0 < rhs) :
     refine ⟨?_, by push_cast; ring⟩
     rw [Nat.gcd_comm, Nat.gcd_rec, h0, Nat.gcd_zero_left]
   · rw [if_neg h0]
-    obtain ⟨res, hres, hx⟩ := (xgcdPrim_spec rhs (buffer % rhs)).2 (by omega)
+    have hprim : ∃ res, (if rhs < 2 ^ W then xgcdPrim rhs (buffer % rhs) else xgcdPrimWide W rhs (buffer % rhs))
+        = .ok res ∧ IsXgcd rhs (buffer % rhs) res := by
+      split
+      · exact (xgcdPrim_spec rhs (buffer % rhs)).2 (by omega)
+      · exact (xgcdPrimWide_spec W rhs (buffer % rhs)).2 (by omega)
+    obtain ⟨res, hres, hx⟩ := hprim
     obtain ⟨r, s, t⟩ := res
     rw [hres]
     simp only []
@@ -51,14 +56,14 @@ theorem gcdExtSmall_spec (buffer rhs : Nat) (hrpos : 0 < rhs) :
       rw [this]; ring
 
 /-- `gcd_ext_large_dword` -/
-theorem gcdExtLargeDword_spec (buffer rhs : Nat) (_hb : 0 < buffer) :
-    ∃ res, gcdExtLargeDword buffer rhs = .ok res ∧ IsBezout buffer rhs res := by
+theorem gcdExtLargeDword_spec (W : Nat) (buffer rhs : Nat) (_hb : 0 < buffer) :
+    ∃ res, gcdExtLargeDword W buffer rhs = .ok res ∧ IsBezout buffer rhs res := by
   unfold gcdExtLargeDword
   split
   · rename_i h; subst h
     exact ⟨_, rfl, by simp [IsBezout]⟩
   · rename_i hr
-    obtain ⟨g, a, bMag, bNeg, h1, h2⟩ := gcdExtSmall_spec buffer rhs (Nat.pos_of_ne_zero hr)
+    obtain ⟨g, a, bMag, bNeg, h1, h2⟩ := gcdExtSmall_spec W buffer rhs (Nat.pos_of_ne_zero hr)
     rw [h1]
     exact ⟨_, rfl, h2⟩
 
@@ -88,20 +93,20 @@ theorem gcdExtRepr_spec (W : Nat) (kernel : Nat → Nat → Nat × Nat × Bool)
   have hp : 0 < 2 ^ (2 * W) := Nat.two_pow_pos _
   constructor
   · rintro ⟨rfl, rfl⟩
-    simp [gcdExtRepr, hp, (xgcdPrim_spec 0 0).1 ⟨rfl, rfl⟩]
+    simp [gcdExtRepr, hp, (xgcdPrimWide_spec W 0 0).1 ⟨rfl, rfl⟩]
   · intro h
     unfold gcdExtRepr
     simp only []
     by_cases ha : a < 2 ^ (2 * W) <;> by_cases hb : b < 2 ^ (2 * W) <;> simp only [ha, hb, decide_true, decide_false]
-    · obtain ⟨res, h1, h2⟩ := (xgcdPrim_spec a b).2 h
+    · obtain ⟨res, h1, h2⟩ := (xgcdPrimWide_spec W a b).2 h
       exact ⟨res, h1, h2.bezout⟩
-    · obtain ⟨res, h1, h2⟩ := gcdExtLargeDword_spec b a (by omega)
+    · obtain ⟨res, h1, h2⟩ := gcdExtLargeDword_spec W b a (by omega)
       obtain ⟨g, s, t⟩ := res
       rw [h1]
       refine ⟨_, rfl, ?_⟩
       simp only [IsBezout] at h2 ⊢
       exact ⟨by rw [h2.1, Nat.gcd_comm], by linarith [h2.2]⟩
-    · exact gcdExtLargeDword_spec a b (by omega)
+    · exact gcdExtLargeDword_spec W a b (by omega)
     · exact ⟨_, rfl, gcdExtLarge_spec kernel hk a b (by omega) (by omega)⟩
 
 /-- `impl_ibig_gcd_ext` (and the mixed UBig/IBig forms): `s·a + t·b = g` for signed operands -/
